@@ -24,7 +24,7 @@ fn sar_w<const W: usize>(x: &[u64; W], digits: usize, bits: u32) -> [u64; W] {
 macro_rules! shr_shape {
     ($name:ident, $neg:expr, $l:expr, $dg:expr, $w:expr, $fixed:ident) => {
         #[kani::proof]
-        #[kani::unwind(10)]
+        #[kani::unwind(34)]
         #[kani::stub(alloc::vec::Vec::shrink_to_fit, vc::noop_shrink)]
         #[kani::stub(crate::biguint::shift::biguint_shr, crate::biguint::shift::verif_c07_biguint_shift::$fixed)]
         #[kani::stub(core::arch::x86_64::_addcarry_u64, vc::stub_addcarry)]
@@ -46,7 +46,7 @@ macro_rules! shr_shape {
 macro_rules! round_down_shape {
     ($name:ident, $T:ty, $l:expr) => {
         #[kani::proof]
-        #[kani::unwind(10)]
+        #[kani::unwind(34)]
         fn $name() {
             let a0: [u64; $l] = vc::any_canon::<$l>();
             let neg: bool = kani::any();
@@ -72,7 +72,7 @@ macro_rules! round_down_shape {
 macro_rules! shl_shape {
     ($name:ident, $neg:expr, $l:expr, $dg:expr, $w:expr, $fixed:ident) => {
         #[kani::proof]
-        #[kani::unwind(10)]
+        #[kani::unwind(34)]
         #[kani::stub(alloc::vec::Vec::shrink_to_fit, vc::noop_shrink)]
         #[kani::stub(crate::biguint::shift::biguint_shl, crate::biguint::shift::verif_c07_biguint_shift::$fixed)]
         fn $name() {
